@@ -88,6 +88,11 @@ m("c06-im2-vector-after-push",["C06","C12"],"cpu.go","\t\t\tvector := cpu.Interr
 m("c06-nmi-masked-by-iff1",["C06"],"cpu.go","\tif cpu.Interrupt.Type == NMIType {","\tif cpu.Interrupt.Type == NMIType && (cpu.IFF1 || cpu.IFF2) {",note="NMI refused when both flip-flops are clear")
 m("c06-halt-handler-notify",["C06"],"op_callret.go","func oopRET(cpu *CPU) {\n","func oopRET(cpu *CPU) {\n\tif cpu.RETIHandler != nil && cpu.IFF2 && !cpu.IFF1 {\n\t\tcpu.RETIHandler.RETIHandle()\n\t}\n",note="plain RET notifies the RETI handler in one IFF state")
 m("c06-step-refactor-early-return",["C06","C07","C08"],"cpu.go","\tif cpu.Interrupt != nil && cpu.processInterrupt() {\n\t\tcpu.Interrupt = nil\n\t\treturn\n\t}\n\t// execute an op-code.\n\tcpu.executeOne()","\tif cpu.Interrupt == nil || !cpu.processInterrupt() {\n\t\t// execute an op-code.\n\t\tcpu.executeOne()\n\t\treturn\n\t}\n\tcpu.Interrupt = nil",expect="silent",note="same Step, control flow inverted")
+m("c06-im0-constructor-drops-byte",["C06"],"z80.go","\tcopy(data[1:], others)","\tcopy(data[1:], others[:len(others)/2*2])",note="mode-0 CALL nn supplied as three bytes loses its last byte")
+m("c06-nmi-constructor-type",["C06"],"z80.go","func NMIInterrupt() *Interrupt {\n\treturn &Interrupt{Type: NMIType}","func NMIInterrupt() *Interrupt {\n\treturn &Interrupt{Type: IMType}")
+m("c06-im2-constructor-masks",["C06"],"z80.go","\t\tData: []uint8{n},","\t\tData: []uint8{n | 1},")
+m("c06-im0-constructor-refactor",["C06"],"z80.go","\tdata := make([]uint8, len(others)+1)\n\tdata[0] = d\n\tcopy(data[1:], others)","\tdata := make([]uint8, 1+len(others))\n\tcopy(data[1:], others)\n\tdata[0] = d",expect="silent")
+
 # ---- C07
 m("c07-ldir-rewind-by-1",["C07","C09"],"op_exbtsg.go","func oopLDIR(cpu *CPU) {\n\toopLDI(cpu)\n\tif cpu.AF.Lo&maskPV != 0 { // cpu.BC != 0\n\t\tcpu.PC -= 2","func oopLDIR(cpu *CPU) {\n\toopLDI(cpu)\n\tif cpu.AF.Lo&maskPV != 0 { // cpu.BC != 0\n\t\tcpu.PC -= 1")
 m("c07-halt-no-rewind",["C07","C08","C01"],"op_ctrl.go","\tcpu.PC--\n\tcpu.HALT = true","\tcpu.HALT = true")
@@ -109,7 +114,7 @@ RUNLOOP="\t\tcpu.Step()\n\t\tif cpu.BreakPoints != nil {\n\t\t\tif _, ok := cpu.
 m("c08-halt-before-breakpoint",["C08"],"cpu.go",RUNLOOP,"\t\tcpu.Step()\n\t\tif cpu.HALT {\n\t\t\tbreak\n\t\t}\n\t\tif cpu.BreakPoints != nil {\n\t\t\tif _, ok := cpu.BreakPoints[cpu.PC]; ok {\n\t\t\t\treturn ErrBreakPoint\n\t\t\t}\n\t\t}\n",note="HALT wins over a breakpoint on the HALT's own address")
 m("c08-while-not-halted",["C08","C13"],"cpu.go","\tcpu.HALT = false\n\tfor {\n","\tfor !cpu.HALT {\n",note="no entry reset and zero Steps possible on a halted CPU")
 m("c08-no-halt-reset",["C08"],"cpu.go","\tcpu.HALT = false\n\tfor {","\tfor {")
-m("c08-executeone-instead-of-step",["C08","C06"],"cpu.go","\t\tcpu.Step()\n\t\tif cpu.BreakPoints != nil {","\t\tcpu.executeOne()\n\t\tif cpu.BreakPoints != nil {",note="Run bypasses interrupt processing")
+m("c08-executeone-instead-of-step",["C08"],"cpu.go","\t\tcpu.Step()\n\t\tif cpu.BreakPoints != nil {","\t\tcpu.executeOne()\n\t\tif cpu.BreakPoints != nil {",note="Run bypasses interrupt processing")
 m("c08-breakpoint-on-old-pc",["C08"],"cpu.go",RUNLOOP,"\t\tpc := cpu.PC\n\t\tcpu.Step()\n\t\tif cpu.BreakPoints != nil {\n\t\t\tif _, ok := cpu.BreakPoints[pc]; ok {\n\t\t\t\treturn ErrBreakPoint\n\t\t\t}\n\t\t}\n\t\tif cpu.HALT {\n\t\t\tbreak\n\t\t}\n")
 m("c08-run-masks-interrupt",["C08"],"cpu.go","\t\tcpu.Step()\n\t\tif cpu.BreakPoints != nil {","\t\tif cpu.Interrupt != nil && cpu.HALT {\n\t\t\tcpu.Interrupt = nil\n\t\t}\n\t\tcpu.Step()\n\t\tif cpu.BreakPoints != nil {")
 m("c08-halt-set-by-di",["C08","C01"],"op_ctrl.go","func oopDI(cpu *CPU) {\n\tcpu.IFF1 = false","func oopDI(cpu *CPU) {\n\tcpu.HALT = cpu.HALT || !cpu.IFF1 && !cpu.IFF2 && cpu.IM == 3\n\tcpu.IFF1 = false",note="another instruction sets the halted indication in a rare state")
@@ -199,6 +204,8 @@ m("c18-warm-boot-vector",["C18"],"internal/tinycpm/tinycpm.go","\t0xc3, 0x03, 0x
 m("c18-in-returns-ff",["C18"],"internal/tinycpm/tinycpm.go","\tio.warnl.Printf(\"not impl. I/O In addr=0x%02x\", addr)\n\treturn 0","\tio.warnl.Printf(\"not impl. I/O In addr=0x%02x\", addr)\n\treturn 0xff",expect="silent",note="the property does not fix the value a port read returns")
 m("c18-memory-get-mirror",["C18"],"internal/tinycpm/tinycpm.go","\treturn m.buf[addr]","\treturn m.buf[addr&0xfeff|addr&0x0100]",expect="silent",note="identity in disguise")
 m("c18-table-patched-at-runtime",["C18"],"internal/tinycpm/tinycpm.go","func NewIO() *IO {\n","func NewIO() *IO {\n\tif len(os.Args) > 7 {\n\t\tbiosFE06[16] = 0\n\t}\n")
+
+m("c18-setstdout-ignored",["C18"],"internal/tinycpm/tinycpm.go","func (io *IO) SetStdout(w io.Writer) {\n\tio.stdout = w","func (io *IO) SetStdout(w io.Writer) {\n\tif io.stdout == nil {\n\t\tio.stdout = w\n\t}",note="the configured writer is only honoured the first time")
 
 json.dump(M,open("controls.json","w"),indent=1)
 print(len(M),"controls")
